@@ -210,7 +210,15 @@ def explore(ctx):
                     coq_events.append('Lasso %d %s' % (b, clist(inside)))
                 else:
                     k = rng.randint(0, shape[0] - 1)
-                    v.update_slice(pos=k + rng.choice([0, 0.2, -0.3]))
+                    if v.slice_slider is not None and rng.random() < 0.25:
+                        # the two ends of the slider: every position it can take must be a plane of the cube
+                        posn = rng.choice([v.slice_slider.valmin, v.slice_slider.valmax])
+                        v.update_slice(pos=posn)
+                        k = int(v.slice)
+                        if not 0 <= k < shape[0]:
+                            fails.append('slider position %r shows plane %r of a cube with %d planes' % (posn, k, shape[0]))
+                    else:
+                        v.update_slice(pos=k + rng.choice([0, 0.2, -0.3]))
                     events.append(['slice', k])
                     coq_events.append('SetSlice %s' % cz(k))
                 obs = observe(v, scs, d, counts)
